@@ -2,7 +2,7 @@
    protocol trace for one (configuration, hint, object, draw), compared with what the harness
    observed on beartype.  Evaluated by vm_compute in generated case files.  No proofs. *)
 From Coq Require Import List ZArith Bool Arith String.
-From BT Require Import Gen.ClassTable Gen.SignSets Gen.Templates Core.PyVal Core.Expr Core.Hint Core.Check Core.GenProofs.
+From BT Require Import Gen.ClassTable Gen.SignSets Gen.Templates Core.PyVal Core.Expr Core.Hint Core.Check.
 Import ListNotations.
 Local Open Scope list_scope.
 
